@@ -1346,7 +1346,129 @@ class RoundTrip(Suite):
                     yield {"fmt": fmt, "graph": g, "base": base, "bind": bind, "tags": ["sweep"]}
 
 
-SUITES = [NtText(), TtlString(), RoundTrip()]
+
+# ---------------------------------------------------------------- K3: one HexTuples row
+from rdflib.plugins.serializers.hext import HextuplesSerializer as _HextSer  # noqa: E402
+
+HX_IRIS = ["http://e/a", "urn:x:y", "http://e/\u00e9", "a:b", "_x:y", "globalId", "http://e/_:x"]
+HX_LABELS = ["b1", "N0af3", "a_:b", "ab", "x_", "_:_:a", "a:_b", "_"]
+HX_FIELDS = ["", "_:b1", "_b", "_", "_:", "http://e/a", "globalId", "localId", "x", "en", "e n", "EN-us", XSD + "string",
+             RDFNS + "langString", "http://e/dt", "dt", "_:a_:b", "a b", "urn:g"]
+
+
+def c_res(r):
+    return copt(r, lambda x: ctuple(c_triple(x[0]), copt(x[1], c_node)))
+
+
+class HextRow(Suite):
+    name = "hext_row"
+    imports = "From RV Require Import Codec.Model Codec.Hext."
+    case_ty = "hx_case"
+    obs_ty = "hx_obs"
+    model = "hx_model"
+    oeq = "hx_obs_eqb"
+    spec = "hx_spec"
+    kf = "hx_kf"
+    kf_ids = {1: "F15q"}
+    corr = "serializers/hext.py:HextuplesSerializer._hex_line,_iri_or_bn; parsers/hext.py:HextuplesParser.parse (line post-processing),_parse_hextuple"
+    quick_n = 500
+    thorough_n = 6000
+    timeout_s = 5.0
+
+    def gen(self, rng, i):
+        if rng.random() < 0.55:
+            def node():
+                return ["I", rng.choice(HX_IRIS)] if rng.random() < 0.6 else ["B", rng.choice(HX_LABELS)]
+            r = rng.random()
+            if r < 0.35:
+                o = node()
+            else:
+                lex = rng.choice(["x", "", "a b", "_:b", "\u00e9\n\"", "globalId"])
+                k = rng.random()
+                o = ["L", lex, None, None] if k < 0.35 else ["L", lex, rng.choice(["en", "EN-us", "x-1"]), None] if k < 0.65 else \
+                    ["L", lex, None, rng.choice(["http://e/dt", XSD + "string", RDFNS + "langString", "urn:x:dt"])]
+            return {"mode": "row", "t": [node(), ["I", rng.choice(HX_IRIS[:4])], o]}
+        row = [rng.choice(HX_FIELDS) for _ in range(6)]
+        if rng.random() < 0.7:
+            row[0] = rng.choice(["http://e/a", "_:b1", "_:a_:b", "_x"])
+            row[1] = "http://e/p"
+            row[3] = rng.choice(["globalId", "localId", XSD + "string", RDFNS + "langString", "http://e/dt"])
+            if rng.random() < 0.6:
+                row[5] = ""
+        if row[5] == "_:":
+            row[5] = "_:g"   # an empty blank-node graph name is replaced by a fresh one in Dataset.get_context: not a row matter
+        return {"mode": "parse", "row": row}
+
+    @staticmethod
+    def read(line):
+        g = Graph()
+        try:
+            g.parse(data=line, format="hext")
+        except CaseTimeout:
+            raise
+        except Exception:  # noqa: BLE001
+            return None
+        out = []
+        for (s_, p_, o_), ctxs in g.store.triples((None, None, None), None):
+            for c in ctxs:
+                ident = c.identifier if hasattr(c, "identifier") else c
+                def conv(x):
+                    if isinstance(x, BNode):
+                        return ["B", str.__str__(x)]
+                    if isinstance(x, Literal):
+                        return ["L", str.__str__(x), None if x.language is None else str.__str__(x.language),
+                                None if x.datatype is None else str.__str__(x.datatype)]
+                    return ["I", str.__str__(x)]
+                ctx = None if str.__str__(ident) == str.__str__(g.identifier) and type(ident) is type(g.identifier) else conv(ident)
+                out.append([[conv(s_), conv(p_), conv(o_)], ctx])
+        if len(out) != 1:
+            return ["?", len(out)]
+        return out[0]
+
+    def run_impl(self, case):
+        if case["mode"] == "parse":
+            return {"p": self.read(json.dumps(case["row"]) + "\n")}
+        t = tuple(to_term_nt(x) for x in case["t"])
+        line = _HextSer(Graph())._hex_line(t, "")
+        row = json.loads(line)
+        return {"row": row, "back": self.read(line)}
+
+    def coq_case(self, case):
+        if case["mode"] == "parse":
+            return "HxParse " + clist(cstr(x) for x in case["row"])
+        return "HxRow " + c_triple(case["t"])
+
+    def coq_obs(self, obs):
+        def res(r):
+            if r is not None and r[0] == "?":
+                return "(Some ((Iri [], [], ONode (Iri [])), Some (Iri [63])))"   # never equal to a model answer
+            return c_res(r)
+        if "p" in obs:
+            return "HxObsParse " + res(obs["p"])
+        return "HxObsRow " + clist(cstr(x) for x in obs["row"]) + " " + res(obs["back"])
+
+    def features(self, case, obs):
+        f = {"mode_" + case["mode"]: 1}
+        if case["mode"] == "parse":
+            f["parse_accepted"] = int(obs["p"] is not None)
+        return f
+
+    def shrink(self, case):
+        return []
+
+    def sweep(self):
+        for s_ in [["I", u] for u in HX_IRIS] + [["B", l_] for l_ in HX_LABELS]:
+            for o in [["I", "http://e/a"], ["B", "a_:b"], ["B", "b1"], ["L", "", None, None], ["L", "x", "en", None],
+                      ["L", "x", None, "http://e/dt"], ["L", "x", None, XSD + "string"]]:
+                yield {"mode": "row", "t": [s_, ["I", "http://e/p"], o]}
+        for f3 in HX_FIELDS:
+            for f4 in ["", "en", "e n"]:
+                for f2 in ["", "x", "_:b_:c"]:
+                    for f5 in ["", "urn:g", "_:g", "_g"]:
+                        yield {"mode": "parse", "row": ["http://e/a", "http://e/p", f2, f3, f4, f5]}
+
+
+SUITES = [NtText(), TtlString(), HextRow(), RoundTrip()]
 
 TRUSTED = [
     "Coq 8.16.1 kernel and standard library; coqc -Q coq RV",
